@@ -146,3 +146,36 @@ func lemmaTickMonotone(intervalStart uint64, intervalsPerDay uint32, t1, t2 uint
 //@ props C10 C09
 //@ option instantiate intervalsPerDay: 86400,8640,2880,1440,288,96,48,24,12,6,1
 //@ requires #start: intervalStart <= 4611686018427387904
+
+// ---------------------------------------------------------------------------------------------
+// C28 / C06: transaction group (TG) record parser
+
+// One write-transaction record at address a: [type 1][pathLen i16][path][dataLen i32][varRecLen i32][offset 8][index 8]
+// [data dataLen][shape count 1][shapes...].  wtData(m,a): address of the offset field; wtDSV(m,a): address of the shape count.
+//@ ghost func wtData(m bytes, a int) int = a + 3 + sle16(m, a+1) + 8
+//@ ghost func wtDSV(m bytes, a int) int = a + 3 + sle16(m, a+1) + 8 + 16 + sle32(m, a + 3 + sle16(m, a+1))
+// tgFits(m, a, n, e): n records starting at address a are well-formed and lie before address e (forward recursion:
+// exactly the parser's walk).
+// wtNext(m, a): address of the record that follows the record at a.
+//@ ghost func wtNext(m bytes, a int) int = dsvEnd(m, wtDSV(m, a) + 1, m[wtDSV(m, a)])
+//@ ghost rec func tgFits(m bytes, a int, n int, e int) bool = n <= 0 || (a + 3 <= e && sle16(m, a+1) >= 0 && a + 3 + sle16(m, a+1) + 8 <= e && sle32(m, a + 3 + sle16(m, a+1)) >= 0 && wtDSV(m, a) + 1 <= e && dsvFits(m, wtDSV(m, a) + 1, m[wtDSV(m, a)], e) && tgFits(m, wtNext(m, a), n - 1, e))
+
+//@ func @/executor/wal.NewWTSet
+//@ inline
+
+//@ func walKeyToFullPath
+//@ trusted "filepath.Join of root and key"
+//@ pure
+
+//@ func ParseTGData
+//@ option nooverflow
+//@ props C28 C06
+//@ requires #hdr: len(tgSerialized) >= 16
+//@ requires #count: 0 <= sle64(tgSerialized, 8) && sle64(tgSerialized, 8) <= 2147483647
+//@ requires #fits: tgFits(mem(tgSerialized), base(tgSerialized)+16, sle64(tgSerialized, 8), base(tgSerialized)+len(tgSerialized))
+//@ loop 0 invariant #idx: 0 <= i && i <= WTCount && 16 <= cursor && cursor <= len(tgSerialized) && len(wtSets) == WTCount
+//@ loop 0 invariant #fits: tgFits(mem(tgSerialized), base(tgSerialized)+cursor, WTCount - i, base(tgSerialized)+len(tgSerialized))
+//@ loop 0 step #next: base(tgSerialized) + cursor == wtNext(mem(tgSerialized), base(tgSerialized) + prev(cursor))
+//@ loop 0 decreases WTCount - i
+//@ ensures #id: tgID == sle64(tgSerialized, 0)
+//@ ensures #n: len(wtSets) == sle64(tgSerialized, 8)
